@@ -39,6 +39,9 @@ func vfRestorerH(history bool) *FileRestorer {
 	// cursorAtNewLine is 0 or the position directly after some recorded line start
 	vfAssume(vfOr(r.cursorAtNewLine == 0, int(r.cursorAtNewLine)-1-r.base <= last))
 	vfAssume(vfOr(r.cursorAtNewLine == 0, int(r.cursorAtNewLine)-1-r.base >= 1))
+	// a cursor standing directly behind the last recorded line start got there through a line break
+	// (raw-string and block-comment newlines are followed by at least the closing delimiter)
+	vfAssume(vfImplies(r.base+last+1 == int(r.cursor), r.cursorAtNewLine == r.cursor))
 	return r
 }
 
